@@ -12,7 +12,7 @@ package vspec
 type Val struct {
 	Kind string // S N B BOOL NULL L M SS NS BS
 	S    string
-	N    int64 // numbers in condition harnesses are integers (exactness of decimals is C12's subject)
+	N    int64  // numbers in condition harnesses are integers (exactness of decimals is C12's subject)
 	NTxt string // when set, the numeral as written (any notation); N is its value
 	B    []byte
 	Bool bool
